@@ -136,6 +136,9 @@ class PyEval(MiniEval):
         raise Unsupported(f"ordering of tokens {a!r}, {b!r}")
 
     def binop(self, op: ast.operator, a: Any, b: Any) -> Any:
+        if isinstance(op, ast.BitOr) and isinstance(b, Opaque) and (isinstance(a, Opaque) or (isinstance(a, tuple) and a and all(isinstance(x, Opaque) for x in a))):
+            # `ClassA | ClassB` of repository classes (a union used in isinstance): a tuple of the class names
+            return (a, b) if isinstance(a, Opaque) else (*a, b)
         if isinstance(a, type) and isinstance(b, type) and isinstance(op, ast.BitOr):
             return (a, b) if not isinstance(a, tuple) else (*a, b)
         if isinstance(a, tuple) and a and isinstance(a[0], type) and isinstance(b, type) and isinstance(op, ast.BitOr):
